@@ -181,3 +181,65 @@ pub fn chunking_nontrivial(cuts: &[usize], headers: &[usize], ends: &[usize]) ->
     }
     (in_header, spans)
 }
+
+// ------------------------------------------------------------------------------------------
+// Environment variants. The properties quantify over every client and every transport; a family
+// that enumerates programs, values or histories would otherwise always run them against the same
+// client (usual 4.1 handshake, everything pipelined) and the same transport (whole reads, whole
+// writes). An environment variant changes only things a conformant server must not care about.
+
+pub const N_ENVS: u64 = 6;
+
+pub fn env_name(k: u64) -> &'static str {
+    match k % N_ENVS {
+        0 => "usual 4.1 handshake, pipelined, whole reads and writes",
+        1 => "pre-4.1 handshake layout",
+        2 => "handshake with CLIENT_PROTOCOL_41 only; every transport write accepts 1 byte",
+        3 => "libmysqlclient-style handshake (db, plugin, attributes); transport writes accept 7 bytes",
+        4 => "lock-step client (sends a command only after the reply to the previous one)",
+        _ => "reads of at most 3 bytes; transport writes accept 1000 bytes",
+    }
+}
+
+/// part 1: before the byte stream is built
+pub fn env_conv(k: u64, conv: &mut Conv) {
+    match k % N_ENVS {
+        1 => conv.handshake = handshake_variant(1).0,
+        2 => conv.handshake = handshake_variant(2).0,
+        3 => conv.handshake = handshake_variant(3).0,
+        _ => {}
+    }
+}
+
+/// gates of a client that waits for every owed reply before it sends its next message
+pub fn lockstep(sim: &mut SimState, conv: &Conv) {
+    let ends = conv.stream().ends;
+    let total = *ends.last().unwrap();
+    let mut gates = vec![Gate { pos: 0, need: 1 }];
+    let mut need = 2;
+    gates.push(Gate { pos: ends[0], need });
+    for (i, c) in conv.cmds.iter().enumerate() {
+        if c.resp != RespKind::None {
+            need += 1;
+        }
+        gates.push(Gate { pos: ends[i + 1], need });
+    }
+    gates.retain(|g| g.pos < total);
+    sim.gates = gates;
+    let c = conv.clone();
+    sim.gate_fn = Some(Box::new(move |flushed| complete_replies(flushed, &c)));
+}
+
+/// part 2: after the simulated transport exists
+pub fn env_sim(k: u64, sim: &mut SimState, conv: &Conv) {
+    match k % N_ENVS {
+        2 => sim.write_cap = 1,
+        3 => sim.write_cap = 7,
+        4 => lockstep(sim, conv),
+        5 => {
+            sim.uniform_read = 3;
+            sim.write_cap = 1000;
+        }
+        _ => {}
+    }
+}
